@@ -1,11 +1,12 @@
 #!/bin/bash
-# usage: tools/recheck_seeded.sh [tier]   -- runs every seeded change against its property's check (scratch worktrees)
+# usage: tools/recheck_seeded.sh [tier] [id regex]   -- runs every seeded change (or those whose id matches the regex) against its property's check (scratch worktrees)
 # prints one line per change: id, exit code (1 = detected, 0 = MISSED, 2 = patch does not apply / inconclusive)
-tier=${1:-quick}
+tier=${1:-quick}; only=${2:-.}
 cd /verif
 for d in seeded/*/; do
   id=$(basename $d); prop=${id%%-*}
   [ "$id" = "dropped" ] && continue
+  echo "$id" | grep -Eq "$only" || continue
   [ "$id" = "C14-f" ] && prop=C15   # only concurrent renders show it
   [ "$id" = "C09-g" ] && prop=C15
   [ "$id" = "C02-h" ] && prop=C04   # a scoping fault
